@@ -86,13 +86,13 @@ namespace RecInt
     template <size_t K>
     inline std::ostream& display_dec(std::ostream& out, const ruint<K>& a) {
         ruint<K> b(a);
-        char result[1024];
+        char result[(size_t(1) << K) / 3 + 2]; // a 2^K-bit number has at most 2^K * log10(2) + 1 digits
         limb m(0), ten(10);
         int i;
 
         if (b == 0) out << '0';
 
-        for (i = 0; b != 0 && i < 1024; i++) {
+        for (i = 0; b != 0 && i < int(sizeof(result)); i++) {
             div(b, m, b, ten);
             result[i] = char('0' + m);
         }
